@@ -331,7 +331,8 @@ def r14_inline_map(body, log, kind):
                 i = j
             elif ch.isalnum() or ch in '_.:' :
                 i -= 1
-            elif ch.isspace() and body[:i].rstrip().endswith(')') and False:
+            elif ch.isspace() and body[i:].lstrip().startswith('.'):
+                # line break inside a method chain (`recv\n    .method()`)
                 i -= 1
             else:
                 break
